@@ -70,7 +70,7 @@ func allTriggers() []string {
 
 func workflowYAML() string {
 	var b strings.Builder
-	b.WriteString("name: " + wfName + "\ndefaults:\n  deploy_timeout: 5s\nroles:\n")
+	b.WriteString("name: " + wfName + "\ndefaults:\n  deploy_timeout: 2s\nroles:\n")
 	b.WriteString("  - name: \"t1\"\n    task:\n      load: " + taskClass + "\n")
 	for _, tr := range allTriggers() {
 		fmt.Fprintf(&b, "  - name: \"h_%s\"\n    call:\n      func: verif.Probe(\"%s\")\n      trigger: %s\n      timeout: 5s\n      critical: true\n", tr, tr, tr)
